@@ -8,6 +8,7 @@ import (
 	"sort"
 	"strings"
 	"sync"
+	"sync/atomic"
 	"time"
 
 	"golang.org/x/tools/go/packages"
@@ -18,25 +19,25 @@ import (
 // ---------------------------------------------------------------- index
 
 type RootSpec struct {
-	Pkg       string   `json:"pkg"`       // package pattern relative to /repo, e.g. ./common/compare
-	Fn        string   `json:"fn"`        // harness function
-	Quick     [][]int  `json:"quick"`     // explicit argument tuples
-	Thorough  [][]int  `json:"thorough"`  // explicit argument tuples (in addition to quick)
-	QuickP    [][]int  `json:"quick_product"`    // [[lo,hi],...] cartesian product
-	ThoroughP [][]int  `json:"thorough_product"` //
-	Unwind    int      `json:"unwind"`
-	Summarize []string `json:"summarize"`
-	Note      string   `json:"note"`
-	Bounds    string   `json:"bounds"`
-	Outside   string   `json:"outside"`
-	NoReplay  bool     `json:"no_replay"` // findings of this root cannot be replayed natively (stated)
-	MaxPaths  int      `json:"max_paths"`
-	Replace   map[string]string `json:"replace"` // callee (full name) -> harness function with the same signature, engine side only
-	PreemptBound int   `json:"preemption_bound"` // max preemptive context switches per path (default 2)
-	NativeStress []int  `json:"native_stress"` // [argIndex, value]: when a finding of this root is replayed natively, that argument (a repetition count) is raised so that the native scheduler gets many chances to take the interleaving
-	PreemptAt   []string `json:"preempt_at"` // restrict lock preemption points to Lock calls made from functions matching one of these substrings
-	PreemptLock bool   `json:"preempt_at_lock"` // every mutex acquisition is a preemption point
-	SkipGo    []string `json:"skip_go"` // goroutines (by function-name substring) that are not started in this root
+	Pkg          string            `json:"pkg"`              // package pattern relative to /repo, e.g. ./common/compare
+	Fn           string            `json:"fn"`               // harness function
+	Quick        [][]int           `json:"quick"`            // explicit argument tuples
+	Thorough     [][]int           `json:"thorough"`         // explicit argument tuples (in addition to quick)
+	QuickP       [][]int           `json:"quick_product"`    // [[lo,hi],...] cartesian product
+	ThoroughP    [][]int           `json:"thorough_product"` //
+	Unwind       int               `json:"unwind"`
+	Summarize    []string          `json:"summarize"`
+	Note         string            `json:"note"`
+	Bounds       string            `json:"bounds"`
+	Outside      string            `json:"outside"`
+	NoReplay     bool              `json:"no_replay"` // findings of this root cannot be replayed natively (stated)
+	MaxPaths     int               `json:"max_paths"`
+	Replace      map[string]string `json:"replace"`          // callee (full name) -> harness function with the same signature, engine side only
+	PreemptBound int               `json:"preemption_bound"` // max preemptive context switches per path (default 2)
+	NativeStress []int             `json:"native_stress"`    // [argIndex, value]: when a finding of this root is replayed natively, that argument (a repetition count) is raised so that the native scheduler gets many chances to take the interleaving
+	PreemptAt    []string          `json:"preempt_at"`       // restrict lock preemption points to Lock calls made from functions matching one of these substrings
+	PreemptLock  bool              `json:"preempt_at_lock"`  // every mutex acquisition is a preemption point
+	SkipGo       []string          `json:"skip_go"`          // goroutines (by function-name substring) that are not started in this root
 }
 
 type PropSpec struct {
@@ -54,7 +55,7 @@ type Index struct {
 
 type KnownFinding struct {
 	Property string   `json:"property"`
-	Also     []string `json:"also"` // other properties whose checks run the same harness
+	Also     []string `json:"also"`    // other properties whose checks run the same harness
 	ID       string   `json:"id"`      // vKnown class id
 	Asserts  []string `json:"asserts"` // finding ids (assert id / panic id prefix) this class explains
 	What     string   `json:"what"`
@@ -350,27 +351,28 @@ type ObsVal struct {
 }
 
 type RootResult struct {
-	Spec     *RootSpec
-	Args     []int
-	Paths    int
-	Done     int
-	Forks    int
-	Instrs   int
-	Merged   int
-	Asserts  int
-	Queries  int
-	Sat      int
-	Unsat    int
-	Unknown  int
-	SolverS  float64
-	WallS    float64
-	Reached  map[string]int
-	Findings []*Finding
-	Funcs    map[string]int
-	Samples  []*PathSample
-	Stubs    map[string]int
-	Lazy     []string
-	Err      string
+	Spec                                    *RootSpec
+	Args                                    []int
+	Paths                                   int
+	Done                                    int
+	Forks                                   int
+	Instrs                                  int
+	Merged                                  int
+	Asserts                                 int
+	Queries                                 int
+	Sat                                     int
+	Unsat                                   int
+	Unknown                                 int
+	SolverS                                 float64
+	WallS                                   float64
+	Reached                                 map[string]int
+	Findings                                []*Finding
+	Funcs                                   map[string]int
+	Samples                                 []*PathSample
+	Stubs                                   map[string]int
+	Lazy                                    []string
+	Err                                     string
+	XSampled, XAgreed, XDisagreed, XInconcl int
 }
 
 func newMachine(l *Loaded, spec *RootSpec, solverBin string) *Machine {
@@ -399,6 +401,15 @@ func runRoot(l *Loaded, spec *RootSpec, args []int, nSamples int) (res *RootResu
 	res = &RootResult{Spec: spec, Args: args, Reached: map[string]int{}}
 	t0 := time.Now()
 	m := newMachine(l, spec, "z3")
+	if v := os.Getenv("VERIF_XCHECK_EVERY"); v != "" {
+		fmt.Sscan(v, &m.xcheckEvery)
+		m.xcheckMax = 1
+		if xcheckBudget.Add(-1) < 0 {
+			m.xcheckEvery = 0
+		}
+		m.xcheckDir = filepath.Join(verifDir, "out", "xcheck")
+		m.xcheckTag = fmt.Sprintf("%s-%s", spec.Fn, strings.Trim(strings.ReplaceAll(fmt.Sprint(args), " ", "_"), "[]"))
+	}
 	defer func() {
 		if r := recover(); r != nil {
 			if os.Getenv("VERIF_PANIC") != "" {
@@ -423,6 +434,8 @@ func runRoot(l *Loaded, spec *RootSpec, args []int, nSamples int) (res *RootResu
 		res.Funcs = m.funcsSeen
 		res.Stubs = m.stubs
 		res.Lazy = m.lazyInits
+		x := m.ctx.xcheck
+		res.XSampled, res.XAgreed, res.XDisagreed, res.XInconcl = x.sampled, x.agreed, x.disagreed, x.inconclusive
 	}()
 	hpkg := l.spkgs[spec.Pkg]
 	hf := hpkg.Func(spec.Fn)
@@ -557,6 +570,8 @@ func (m *Machine) samplePath(s *State, spec *RootSpec, args []int) *PathSample {
 	sort.Strings(ps.Reached)
 	return ps
 }
+
+var xcheckBudget atomic.Int64
 
 type job struct {
 	spec *RootSpec
